@@ -56,7 +56,10 @@ func PlayMode(beh M, rng *rand.Rand, proj *Projection, mode int) ([]M, error) {
 		cfg["_limit"] = SymLimits[rng.Intn(len(SymLimits))]
 	}
 	if S(cfg, "tls") == "empty" {
-		cfg["_tlsfield"] = rng.Intn(2)
+		cfg["_tlsfield"] = rng.Intn(3)
+	}
+	if S(cfg, "tls") == "cert" {
+		cfg["_tlsvar"] = rng.Intn(4)
 	}
 	x, err := NewExec(cfg)
 	if err != nil {
@@ -283,7 +286,10 @@ func playStream(beh M, rng *rand.Rand, proj *Projection, mode int) ([]M, error) 
 	if S(cfg, "tls") == "empty" {
 		// same draws, in the same order, as the message-by-message run: every segmentation of a stream
 		// must be concretised to the same bytes
-		cfg["_tlsfield"] = rng.Intn(2)
+		cfg["_tlsfield"] = rng.Intn(3)
+	}
+	if S(cfg, "tls") == "cert" {
+		cfg["_tlsvar"] = rng.Intn(4)
 	}
 	x, err := NewExec(cfg)
 	if err != nil {
